@@ -2,6 +2,7 @@ package sim
 
 import (
 	"fmt"
+	"github.com/internetarchive/Zeno/internal/pkg/source/lq/sqlc_model"
 	"net/http"
 	"path/filepath"
 	"regexp"
@@ -207,6 +208,8 @@ func (t *tracker) requestedBefore(key string, step int) bool {
 type oC01 struct {
 	r *e2e
 	t *tracker
+	// local queue: how often each handed-out row was part of a DELETE that succeeded
+	lqDeleted map[string]int
 }
 
 func (o *oC01) Name() string { return "C01" }
@@ -247,6 +250,27 @@ func (o *oC01) OnEvent(k *Kernel, ev *Event) {
 		if len(miss) > 0 {
 			sort.Strings(miss)
 			k.Violate("C01", "tree-fetched", "finished-before-tree-fetched", fmt.Sprintf("seed %s finished but these tree URLs were never requested: %v", nm, miss))
+		}
+	case "lq.fin.deleted":
+		if len(ev.raw) > 1 && ev.raw[1] == nil {
+			if us, ok := ev.raw[0].([]sqlc_model.Url); ok {
+				if o.lqDeleted == nil {
+					o.lqDeleted = map[string]int{}
+				}
+				for _, u := range us {
+					nm := u.ID
+					if n, ok := k.names.Lookup(u.ID); ok {
+						nm = n
+					}
+					o.lqDeleted[nm]++
+					if o.lqDeleted[nm] > 1 {
+						k.Violate("C01", "finish-once", "queue-row-deleted-twice", fmt.Sprintf("the local queue was asked to delete the row of %s %d times", nm, o.lqDeleted[nm]))
+					}
+					if o.t.finRecv[nm] == 0 {
+						k.Violate("C01", "finish-accepted", "queue-row-deleted-without-finish", fmt.Sprintf("the local queue deleted the row of %s, for which it never received a finish", nm))
+					}
+				}
+			}
 		}
 	case "lq.fin.recv", "hq.fin.recv":
 		nm := seedArg(ev.Args[0])
@@ -297,6 +321,19 @@ func (o *oC01) OnIdle(k *Kernel) {
 	}
 	if len(o.t.tracked) > 0 {
 		k.Violate("C01", "state-table", "table-not-empty-at-idle", fmt.Sprintf("%v", o.t.tracked))
+	}
+	if !o.r.sc.Cfg.UseHQ && len(o.r.sc.LQFaults) == 0 {
+		// the queue has drained and its batch timers have fired: every finish it received has become a DELETE of that row
+		var kept []string
+		for _, nm := range o.t.takenIDs {
+			if o.t.finRecv[nm] > 0 && o.lqDeleted[nm] == 0 {
+				kept = append(kept, nm)
+			}
+		}
+		if len(kept) > 0 {
+			sort.Strings(kept)
+			k.Violate("C01", "never-dropped", "finished-row-never-deleted", fmt.Sprintf("pipeline idle, these seeds were reported finished to the local queue but their rows were never deleted: %v", kept))
+		}
 	}
 	var miss []string
 	for key, res := range o.r.sc.Site {
